@@ -273,14 +273,38 @@ class Fn:
     def value_source(self, n):
         """Strip casts and copy/move constructions: the expression whose value initialises/assigns."""
         n = self.strip_all_casts(n)
-        while n and self.is_construct(n):
-            args = [a for a in self.nodes[n].get('args', []) if self.nodes[a]['cls'] != 'CXXDefaultArgExpr']
-            cal = self.callee(n)
-            if len(args) == 1 and cal and cal.get('ctor') in ('copy', 'move'):
-                n = self.strip_all_casts(args[0])
-            else:
-                break
+        while n:
+            if self.is_construct(n):
+                args = [a for a in self.nodes[n].get('args', []) if self.nodes[a]['cls'] != 'CXXDefaultArgExpr']
+                cal = self.callee(n)
+                if len(args) == 1 and cal and cal.get('ctor') in ('copy', 'move'):
+                    n = self.strip_all_casts(args[0])
+                    continue
+            elif self.nodes[n]['cls'] == 'CallExpr' and short((self.callee(n) or {}).get('key', '')) in MOVE_LIKE and len(self.nodes[n].get('args', [])) == 1:
+                n = self.strip_all_casts(self.nodes[n]['args'][0])     # std::move / std::forward: same object
+                continue
+            break
         return n
+
+    def cond_core(self, n):
+        """(node, negated): the expression a branch condition really tests - casts stripped, leading `!` peeled, and a local
+        `const T x = <expr>` (non-reference) replaced by its initialiser (it cannot change between the declaration and the test)."""
+        neg = False
+        n = self.strip_all_casts(n)
+        for _ in range(8):
+            o = self.nodes[n]
+            if o['cls'] == 'UnaryOperator' and o.get('op') == '!':
+                neg = not neg
+                n = self.strip_all_casts(self.kids(n)[0])
+                continue
+            if o['cls'] == 'DeclRefExpr' and self.decl(n).get('kind') == 'var':
+                vd = self.var_decls().get(self.decl(n)['id'])
+                vt = self.tu.type(vd['t']) if vd else None
+                if vd and vd.get('init') and vt and vt.get('const') and not vt.get('ref'):
+                    n = self.strip_all_casts(vd['init'])
+                    continue
+            break
+        return n, neg
 
     def is_call(self, n):
         return self.nodes[n]['cls'] in ('CallExpr', 'CXXMemberCallExpr', 'CXXOperatorCallExpr')
